@@ -97,6 +97,7 @@ Definition FNotWaiting := 4.      (* addTaskInputRequest / setComputing outside 
 Definition FNotComputing := 5.    (* finished-task processing / discoveredDependency / complete outside InProgressComputing *)
 Definition FDemandUnscanned := 6. (* demandRule reached task creation on a rule that is not NeedsToRun *)
 Definition FScanIndex := 7.       (* processRuleScanRequest entered with inputIndex == dependencies.size() *)
+Definition FStaleScan := 8.       (* executeTasks returned true while some rule is still IsScanning (its scan record is freed by build()) *)
 Definition FFuel := 99.           (* model artefact: phase fuel exhausted *)
 
 (* ---------- field updates ---------- *)
@@ -134,6 +135,22 @@ Definition fault (s : istate) (c : N) : istate :=
   mkIS (is_rules s) (is_tasks s) (is_toscan s) (is_inreq s) (is_fininreq s) (is_ready s) (is_fintasks s) (is_outstanding s)
        (is_epoch s) (is_usedb s) (is_db s) (is_db_epoch s) (match is_fault s with Some c0 => Some c0 | None => Some c end) (is_log s).
 
+(* ---------- single-field updates of the records ---------- *)
+Definition res_with_deps (r : result) (d : list dep) : result := mkRes (res_value r) (res_sig r) (res_computedAt r) (res_builtAt r) d.
+Definition res_with_built (r : result) (b : N) : result := mkRes (res_value r) (res_sig r) (res_computedAt r) b (res_deps r).
+Definition ri_with_kind (kd : kind) (ri : rinfo) : rinfo := mkRI kd (ri_res ri) (ri_paused ri) (ri_deferred ri) (ri_cancelled ri).
+Definition ri_with_res (r : result) (ri : rinfo) : rinfo := mkRI (ri_kind ri) r (ri_paused ri) (ri_deferred ri) (ri_cancelled ri).
+Definition ri_with_paused (l : list ireq) (ri : rinfo) : rinfo := mkRI (ri_kind ri) (ri_res ri) l (ri_deferred ri) (ri_cancelled ri).
+Definition ri_with_deferred (l : list sreq) (ri : rinfo) : rinfo := mkRI (ri_kind ri) (ri_res ri) (ri_paused ri) l (ri_cancelled ri).
+Definition ri_with_cancelled (b : bool) (ri : rinfo) : rinfo := mkRI (ri_kind ri) (ri_res ri) (ri_paused ri) (ri_deferred ri) b.
+Definition ti_with_wait (n : nat) (ti : tinfo) : tinfo := mkTI n (ti_reqby ti) (ti_deferred ti) (ti_disc ti) (ti_slots ti) (ti_branched ti) (ti_pending ti).
+Definition ti_with_reqby (l : list ireq) (ti : tinfo) : tinfo := mkTI (ti_wait ti) l (ti_deferred ti) (ti_disc ti) (ti_slots ti) (ti_branched ti) (ti_pending ti).
+Definition ti_with_deferred (l : list sreq) (ti : tinfo) : tinfo := mkTI (ti_wait ti) (ti_reqby ti) l (ti_disc ti) (ti_slots ti) (ti_branched ti) (ti_pending ti).
+Definition ti_with_disc (l : list dep) (ti : tinfo) : tinfo := mkTI (ti_wait ti) (ti_reqby ti) (ti_deferred ti) l (ti_slots ti) (ti_branched ti) (ti_pending ti).
+Definition ti_with_slots (l : list (option value)) (ti : tinfo) : tinfo := mkTI (ti_wait ti) (ti_reqby ti) (ti_deferred ti) (ti_disc ti) l (ti_branched ti) (ti_pending ti).
+Definition ti_with_branched (b : bool) (ti : tinfo) : tinfo := mkTI (ti_wait ti) (ti_reqby ti) (ti_deferred ti) (ti_disc ti) (ti_slots ti) b (ti_pending ti).
+Definition ti_with_pending (p : option value) (ti : tinfo) : tinfo := mkTI (ti_wait ti) (ti_reqby ti) (ti_deferred ti) (ti_disc ti) (ti_slots ti) (ti_branched ti) p.
+
 (* the order in which DTask::start calls request / requestSingleUse / mustFollow (the scenario's ord=) *)
 Inductive rkind := RReq | RSingle | RFollow.
 
@@ -143,13 +160,6 @@ Fixpoint set_nth {A} (l : list A) (n : nat) (a : A) : list A :=
   | _ :: t, O => a :: t
   | x :: t, S n' => x :: set_nth t n' a
   end.
-
-Section Impl.
-Variable rules : key -> rule.
-Variable env : key -> N.
-Variable F : key -> N -> list value -> list N -> N -> N.
-Variable ord : key -> list rkind.
-Variable syncp : key -> bool.       (* the task of this key calls complete() inside inputsAvailable *)
 
 (* ---------- ruleInfos / taskInfos access ---------- *)
 
@@ -165,13 +175,20 @@ Definition touch (s : istate) (k : key) : istate :=
   | None => upd_rules s (aset (is_rules s) k (rinfo_of s k))
   end.
 Definition set_ri (s : istate) (k : key) (ri : rinfo) : istate := upd_rules s (aset (is_rules s) k ri).
-Definition set_kind (s : istate) (k : key) (kd : kind) : istate :=
-  let ri := rinfo_of s k in set_ri s k (mkRI kd (ri_res ri) (ri_paused ri) (ri_deferred ri) (ri_cancelled ri)).
-Definition set_res (s : istate) (k : key) (r : result) : istate :=
-  let ri := rinfo_of s k in set_ri s k (mkRI (ri_kind ri) r (ri_paused ri) (ri_deferred ri) (ri_cancelled ri)).
+Definition mod_ri (s : istate) (k : key) (f : rinfo -> rinfo) : istate := set_ri s k (f (rinfo_of s k)).
 Definition kind_of (s : istate) (k : key) : kind := ri_kind (rinfo_of s k).
 Definition res_of (s : istate) (k : key) : result := ri_res (rinfo_of s k).
+Definition set_kind (s : istate) (k : key) (kd : kind) : istate := mod_ri s k (ri_with_kind kd).
+Definition set_res (s : istate) (k : key) (r : result) : istate := mod_ri s k (ri_with_res r).
 Definition set_ti (s : istate) (k : key) (ti : tinfo) : istate := upd_tasks s (aset (is_tasks s) k ti).
+(* update of a task that must exist *)
+Definition mod_ti (s : istate) (t : key) (f : tinfo -> tinfo) : istate :=
+  match aget (is_tasks s) t with
+  | Some ti => set_ti s t (f ti)
+  | None => fault s FNoTask
+  end.
+(* the code path continues only if the assert's condition holds; otherwise a fault is recorded *)
+Definition check (s : istate) (b : bool) (c : N) : istate := if b then s else fault s c.
 
 Definition is_complete (s : istate) (k : key) : bool :=
   kind_eqb (kind_of s k) KComplete && N.eqb (res_builtAt (res_of s k)) (is_epoch s).
@@ -185,6 +202,8 @@ Definition is_in_progress (s : istate) (k : key) : bool :=
   match kind_of s k with KWaiting | KComputing => true | _ => false end.
 
 (* ---------- the engine's task API ---------- *)
+Definition push_inreq (s : istate) (rq : ireq) : istate := upd_inreq s (is_inreq s ++ [rq]).
+Definition ti_inc_wait (ti : tinfo) : tinfo := ti_with_wait (S (ti_wait ti)) ti.
 
 (* addTaskInputRequest *)
 Definition add_request (s : istate) (t : key) (inp : key) (slot : nat) (order single : bool) : istate :=
@@ -192,33 +211,36 @@ Definition add_request (s : istate) (t : key) (inp : key) (slot : nat) (order si
   | None => fault s FNoTask
   | Some _ =>
     if negb (kind_eqb (kind_of s t) KWaiting) then fault s FNotWaiting      (* the code calls abort() *)
-    else
-      let s := touch s inp in
-      let s := upd_inreq s (is_inreq s ++ [mkIReq (Some t) slot inp order single]) in
-      match aget (is_tasks s) t with
-      | None => s
-      | Some ti => set_ti s t (mkTI (S (ti_wait ti)) (ti_reqby ti) (ti_deferred ti) (ti_disc ti) (ti_slots ti) (ti_branched ti) (ti_pending ti))
-      end
+    else mod_ti (push_inreq (touch s inp) (mkIReq (Some t) slot inp order single)) t ti_inc_wait
   end.
 
 (* taskDiscoveredDependency *)
+Definition ti_add_disc (d : key) (ti : tinfo) : tinfo := ti_with_disc (ti_disc ti ++ [mkDep d false false]) ti.
 Definition discovered (s : istate) (t : key) (d : key) : istate :=
   match aget (is_tasks s) t with
   | None => fault s FNoTask
-  | Some ti =>
+  | Some _ =>
     if negb (kind_eqb (kind_of s t) KComputing) then fault s FNotComputing
-    else set_ti s t (mkTI (ti_wait ti) (ti_reqby ti) (ti_deferred ti) (ti_disc ti ++ [mkDep d false false]) (ti_slots ti) (ti_branched ti) (ti_pending ti))
+    else mod_ti s t (ti_add_disc d)
   end.
 
-(* taskIsComplete (forceChange = false) *)
+(* taskIsComplete (forceChange = false): the new result of rule t (signature sg) *)
+Definition completed_result (sg : N) (ep : N) (r : result) (v : value) : result :=
+  let same := match res_value r with Some old => value_eqb old v | None => false end in
+  if same then mkRes (res_value r) sg (res_computedAt r) (res_builtAt r) (res_deps r)
+  else mkRes (Some v) sg ep (res_builtAt r) (res_deps r).
+
+Section Impl.
+Variable rules : key -> rule.
+Variable env : key -> N.
+Variable F : key -> N -> list value -> list N -> N -> N.
+Variable ord : key -> list rkind.
+Variable syncp : key -> bool.       (* the task of this key calls complete() inside inputsAvailable *)
+
 Definition task_is_complete (s : istate) (t : key) (v : value) : istate :=
   if negb (kind_eqb (kind_of s t) KComputing) then fault s FNotComputing
   else
-    let r := res_of s t in
-    let same := match res_value r with Some old => value_eqb old v | None => false end in
-    let r' := if same then mkRes (res_value r) (r_sig (rules t)) (res_computedAt r) (res_builtAt r) (res_deps r)
-              else mkRes (Some v) (r_sig (rules t)) (is_epoch s) (res_builtAt r) (res_deps r) in
-    let s := set_res s t r' in
+    let s := set_res s t (completed_result (r_sig (rules t)) (is_epoch s) (res_of s t) v) in
     upd_fintasks s (t :: is_fintasks s).
 
 (* ---------- the driver's task (DTask in harness/cpp/engine_driver.cpp) ---------- *)
@@ -234,55 +256,48 @@ Fixpoint add_follows (s : istate) (t : key) (ks : list key) : istate :=
   | x :: ks' => add_follows (add_request s t x 0%nat true false) t ks'       (* kMustFollowInputID: never delivered *)
   end.
 Definition start_group (s : istate) (t : key) (c : rkind) : istate :=
-  let rl := rules t in
   match c with
-  | RReq => add_reqs s t (r_req rl) 0%nat false
-  | RSingle => add_reqs s t (r_single rl) (length (r_req rl)) true
-  | RFollow => add_follows s t (r_follow rl)
+  | RReq => add_reqs s t (r_req (rules t)) 0%nat false
+  | RSingle => add_reqs s t (r_single (rules t)) (length (r_req (rules t))) true
+  | RFollow => add_follows s t (r_follow (rules t))
   end.
 (* DTask::start *)
+Definition initial_slots (rl : rule) : list (option value) := repeat None (length (r_req rl) + length (r_single rl)).
 Definition task_start (s : istate) (t : key) : istate :=
-  let rl := rules t in
   let s := iemit s (EStart t) in
-  let s := match aget (is_tasks s) t with
-           | None => fault s FNoTask
-           | Some ti => set_ti s t (mkTI (ti_wait ti) (ti_reqby ti) (ti_deferred ti) (ti_disc ti)
-                                         (repeat None (length (r_req rl) + length (r_single rl))) (ti_branched ti) (ti_pending ti))
-           end in
+  let s := mod_ti s t (ti_with_slots (initial_slots (rules t))) in
   fold_left (fun s c => start_group s t c) (ord t) s.
 
 (* DTask::req from provideValue: a new slot at the end, then request() *)
+Definition ti_new_slot (ti : tinfo) : tinfo := ti_with_slots (ti_slots ti ++ [None]) ti.
 Fixpoint branch_reqs (s : istate) (t : key) (ks : list key) : istate :=
   match ks with
   | [] => s
   | x :: ks' =>
     match aget (is_tasks s) t with
     | None => fault s FNoTask
-    | Some ti =>
-      let id := length (ti_slots ti) in
-      let s := set_ti s t (mkTI (ti_wait ti) (ti_reqby ti) (ti_deferred ti) (ti_disc ti) (ti_slots ti ++ [None]) (ti_branched ti) (ti_pending ti)) in
-      branch_reqs (add_request s t x id false false) t ks'
+    | Some ti => branch_reqs (add_request (set_ti s t (ti_new_slot ti)) t x (length (ti_slots ti)) false false) t ks'
     end
   end.
 
-(* DTask::provideValue *)
+(* DTask::provideValue: store the value; the branch slot fires once *)
+Definition store_slot (slot : nat) (v : option value) (ti : tinfo) : tinfo :=
+  if Nat.ltb slot (length (ti_slots ti)) then ti_with_slots (set_nth (ti_slots ti) slot v) ti else ti.
+Definition branch_fire (t : key) (ti : tinfo) (slot : nat) (v : option value) : option (list key) :=
+  match r_br (rules t) with
+  | Some (i, a, b) =>
+    if negb (ti_branched ti) && Nat.eqb slot i && Nat.ltb i (length (r_req (rules t)))
+    then Some (if is_even (payload_of v) then a else b) else None
+  | None => None
+  end.
 Definition provide_value (s : istate) (t : key) (slot : nat) (inp : key) (v : option value) : istate :=
   let s := iemit s (EProvide t slot inp v) in
   match aget (is_tasks s) t with
   | None => fault s FNoTask
   | Some ti =>
-    let slots := if Nat.ltb slot (length (ti_slots ti)) then set_nth (ti_slots ti) slot v else ti_slots ti in
-    let fire := match r_br (rules t) with
-                | Some (i, a, b) =>
-                  if negb (ti_branched ti) && Nat.eqb slot i && Nat.ltb i (length (r_req (rules t)))
-                  then Some (if is_even (payload_of v) then a else b) else None
-                | None => None
-                end in
-    match fire with
-    | None => set_ti s t (mkTI (ti_wait ti) (ti_reqby ti) (ti_deferred ti) (ti_disc ti) slots (ti_branched ti) (ti_pending ti))
-    | Some ks =>
-      let s := set_ti s t (mkTI (ti_wait ti) (ti_reqby ti) (ti_deferred ti) (ti_disc ti) slots true (ti_pending ti)) in
-      branch_reqs s t ks
+    match branch_fire t ti slot v with
+    | None => set_ti s t (store_slot slot v ti)
+    | Some ks => branch_reqs (set_ti s t (ti_with_branched true (store_slot slot v ti))) t ks
     end
   end.
 
@@ -294,128 +309,131 @@ Definition task_finish (s : istate) (t : key) : istate :=
     match ti_pending ti with
     | None => s                                   (* nothing pending: not a task the schedule can complete *)
     | Some v =>
-      let s := set_ti s t (mkTI (ti_wait ti) (ti_reqby ti) (ti_deferred ti) (ti_disc ti) (ti_slots ti) (ti_branched ti) None) in
+      let s := set_ti s t (ti_with_pending None ti) in
       let s := fold_left (fun s d => discovered s t d) (r_disc (rules t)) s in
-      let s := iemit s (EComplete t v) in
-      task_is_complete s t v
+      task_is_complete (iemit s (EComplete t v)) t v
     end
   end.
 
 (* the slots whose values the task uses: requests and branch requests, not the single-use ones *)
 Definition used_slots (rl : rule) (slots : list (option value)) : list (option value) :=
   firstn (length (r_req rl)) slots ++ skipn (length (r_req rl) + length (r_single rl)) slots.
+Definition task_value (t : key) (ti : tinfo) : value :=
+  let rl := rules t in
+  let o := Spec.obs rules env t in
+  (F t (r_sig rl) (map payload_of (used_slots rl (ti_slots ti))) (map env (r_disc rl)) o, o).
 
 (* DTask::inputsAvailable *)
 Definition inputs_available (s : istate) (t : key) : istate :=
-  let rl := rules t in
   let s := iemit s (EAvail t) in
   match aget (is_tasks s) t with
   | None => fault s FNoTask
   | Some ti =>
-    let o := Spec.obs rules env t in
-    let v := (F t (r_sig rl) (map payload_of (used_slots rl (ti_slots ti))) (map env (r_disc rl)) o, o) in
-    let s := set_ti s t (mkTI (ti_wait ti) (ti_reqby ti) (ti_deferred ti) (ti_disc ti) (ti_slots ti) (ti_branched ti) (Some v)) in
+    let s := set_ti s t (ti_with_pending (Some (task_value t ti)) ti) in
     if syncp t then task_finish s t else s
   end.
 
 (* ---------- scanRule ---------- *)
 Definition need (s : istate) (k : key) (reason : N) (inp : option key) : istate :=
   iemit (set_kind s k KNeedsToRun) (ENeed k reason inp).
+(* cleanSingleUseDependencies *)
+Definition ri_clean_single (ri : rinfo) : rinfo := ri_with_res (res_with_deps (ri_res ri) (drop_single (res_deps (ri_res ri)))) ri.
+(* state = IsScanning with a fresh (cleared) scan record *)
+Definition ri_begin_scan (ri : rinfo) : rinfo := mkRI KScanning (ri_res ri) [] [] (ri_cancelled ri).
 
 Definition scan_rule (s : istate) (k : key) : bool * istate :=
   if is_scanned s k then (true, s)
   else if kind_eqb (kind_of s k) KScanning then (false, s)
   else
-    let r0 := res_of s k in
-    (* cleanSingleUseDependencies *)
-    let r := mkRes (res_value r0) (res_sig r0) (res_computedAt r0) (res_builtAt r0) (drop_single (res_deps r0)) in
-    let s := set_res s k r in
+    let s := mod_ri s k ri_clean_single in
+    let r := res_of s k in
     if N.eqb (res_builtAt r) 0 then (true, need s k NeverBuilt None)
     else if ri_cancelled (rinfo_of s k) then (true, need s k Forced None)
     else if negb (N.eqb (r_sig (rules k)) (res_sig r)) then (true, need s k SignatureChanged None)
     else if negb (Spec.valid rules env k r) then (true, need (iemit s (EValid k false)) k InvalidValue None)
     else
-      let s := iemit s (EValid k true) in
       match res_deps r with
-      | [] => (true, set_kind s k KDoesNotNeedToRun)
+      | [] => (true, set_kind (iemit s (EValid k true)) k KDoesNotNeedToRun)
       | _ :: _ =>
-        (* state = IsScanning with a fresh (cleared) scan record; enqueue the scan of input 0 *)
-        let ri := rinfo_of s k in
-        let s := set_ri s k (mkRI KScanning (ri_res ri) [] [] (ri_cancelled ri)) in
-        (false, upd_toscan s (mkSReq k 0%nat None false false :: is_toscan s))
+        let s := mod_ri (iemit s (EValid k true)) k ri_begin_scan in
+        (false, upd_toscan s (mkSReq k 0%nat None false false :: is_toscan s))      (* enqueue the scan of input 0 *)
       end.
 
 (* ---------- demandRule ---------- *)
-Definition set_complete (s : istate) (k : key) : istate :=
-  let ri := rinfo_of s k in
-  let r := ri_res ri in
-  set_ri s k (mkRI KComplete (mkRes (res_value r) (res_sig r) (res_computedAt r) (is_epoch s) (res_deps r))
-                   (ri_paused ri) (ri_deferred ri) (ri_cancelled ri)).
+Definition ri_complete (ep : N) (ri : rinfo) : rinfo := ri_with_kind KComplete (ri_with_res (res_with_built (ri_res ri) ep) ri).
+Definition set_complete (s : istate) (k : key) : istate := mod_ri s k (ri_complete (is_epoch s)).
+
+(* InProgressWaiting, taskWasCancelled = false, dependencies cleared *)
+Definition ri_begin_task (ri : rinfo) : rinfo := mkRI KWaiting (res_with_deps (ri_res ri) []) (ri_paused ri) (ri_deferred ri) false.
+Definition begin_task (s : istate) (k : key) : istate :=
+  mod_ri (set_ti (iemit s (ECreate k)) k new_tinfo) k ri_begin_task.
+Definition prior_value (s : istate) (k : key) : istate :=
+  let r := res_of s k in
+  if negb (N.eqb (res_builtAt r) 0) && N.eqb (r_sig (rules k)) (res_sig r) then iemit s (EPrior k (res_value r)) else s.
+Definition ready_if_nowait (s : istate) (k : key) : istate :=
+  match aget (is_tasks s) k with
+  | Some ti => if Nat.eqb (ti_wait ti) 0 then upd_ready s (is_ready s ++ [k]) else s
+  | None => fault s FNoTask
+  end.
+Definition create_task (s : istate) (k : key) : istate :=
+  let s := check s (kind_eqb (kind_of s k) KNeedsToRun) FDemandUnscanned in
+  ready_if_nowait (prior_value (task_start (begin_task s k) k) k) k.
 
 Definition demand_rule (s : istate) (k : key) : bool * istate :=
   if is_complete s k then (true, s)
   else if is_in_progress s k then (false, s)
   else if kind_eqb (kind_of s k) KDoesNotNeedToRun then (true, set_complete s k)
-  else
-    let s := if kind_eqb (kind_of s k) KNeedsToRun then s else fault s FDemandUnscanned in
-    let s := iemit s (ECreate k) in
-    let s := set_ti s k new_tinfo in
-    (* InProgressWaiting, taskWasCancelled = false, dependencies cleared *)
-    let ri := rinfo_of s k in
-    let r := ri_res ri in
-    let s := set_ri s k (mkRI KWaiting (mkRes (res_value r) (res_sig r) (res_computedAt r) (res_builtAt r) [])
-                              (ri_paused ri) (ri_deferred ri) false) in
-    let s := task_start s k in
-    let r := res_of s k in
-    let s := if negb (N.eqb (res_builtAt r) 0) && N.eqb (r_sig (rules k)) (res_sig r) then iemit s (EPrior k (res_value r)) else s in
-    let s := match aget (is_tasks s) k with
-             | Some ti => if Nat.eqb (ti_wait ti) 0 then upd_ready s (is_ready s ++ [k]) else s
-             | None => fault s FNoTask
-             end in
-    (false, s).
+  else (false, create_task s k).
 
 (* ---------- finishScanRequest ---------- *)
+Definition ri_end_scan (kd : kind) (ri : rinfo) : rinfo := mkRI kd (ri_res ri) [] [] (ri_cancelled ri).
+Definition wake_scan_record (s : istate) (ri : rinfo) : istate :=
+  upd_inreq (upd_toscan s (rev (ri_deferred ri) ++ is_toscan s)) (is_inreq s ++ ri_paused ri).
 Definition finish_scan (s : istate) (k : key) (kd : kind) : istate :=
-  let s := if kind_eqb (kind_of s k) KScanning then s else fault s FNotScanning in
-  let ri := rinfo_of s k in
-  let s := upd_toscan s (rev (ri_deferred ri) ++ is_toscan s) in
-  let s := upd_inreq s (is_inreq s ++ ri_paused ri) in
-  set_ri s k (mkRI kd (ri_res ri) [] [] (ri_cancelled ri)).
+  let s := check s (kind_eqb (kind_of s k) KScanning) FNotScanning in
+  mod_ri (wake_scan_record s (rinfo_of s k)) k (ri_end_scan kd).
 
-(* ---------- processRuleScanRequest ----------
-   The do-while over the remaining inputs of the scanning rule: [ds] is dependencies[inputIndex..] (the list is not
+(* ---------- processRuleScanRequest ---------- *)
+Definition ri_add_deferred (rq : sreq) (ri : rinfo) : rinfo := ri_with_deferred (ri_deferred ri ++ [rq]) ri.
+Definition ri_add_paused (rq : ireq) (ri : rinfo) : rinfo := ri_with_paused (ri_paused ri ++ [rq]) ri.
+Definition ti_add_deferred (rq : sreq) (ti : tinfo) : tinfo := ti_with_deferred (ti_deferred ti ++ [rq]) ti.
+Definition ti_add_reqby (rq : ireq) (ti : tinfo) : tinfo := ti_with_reqby (ti_reqby ti ++ [rq]) ti.
+(* inputRuleInfo.getPendingScanRecord()->deferredScanRequests.push_back(request) *)
+Definition defer_on_rule (s : istate) (inp : key) (rq : sreq) : istate :=
+  mod_ri (check s (kind_eqb (kind_of s inp) KScanning) FNotScanning) inp (ri_add_deferred rq).
+(* inputRuleInfo.getPendingTaskInfo()->deferredScanRequests.push_back(request) *)
+Definition defer_on_task (s : istate) (inp : key) (rq : sreq) : istate := mod_ti s inp (ti_add_deferred rq).
+(* the request with the looked-up input cached *)
+Definition fill_request (rq : sreq) (d : dep) : sreq :=
+  match sq_input rq with
+  | Some _ => rq
+  | None => mkSReq (sq_rule rq) (sq_index rq) (Some (d_key d)) (d_order d) (d_single d)
+  end.
+Definition request_input (rq : sreq) (d : dep) : key := match sq_input rq with Some i => i | None => d_key d end.
+Definition input_rebuilt (s : istate) (k inp : key) : bool := res_builtAt (res_of s k) <? res_computedAt (res_of s inp).
+
+(* The do-while over the remaining inputs of the scanning rule: [ds] is dependencies[inputIndex..] (the list is not
    modified while the rule is IsScanning). *)
 Fixpoint scan_inputs (s : istate) (rq : sreq) (ds : list dep) : istate :=
   match ds with
   | [] => fault s FScanIndex                 (* dependencies[inputIndex] out of range *)
   | d :: ds' =>
     let k := sq_rule rq in
-    (* look up the input rule unless cached in the request *)
-    let rq := match sq_input rq with
-              | Some _ => rq
-              | None => mkSReq k (sq_index rq) (Some (d_key d)) (d_order d) (d_single d)
-              end in
-    let inp := match sq_input rq with Some i => i | None => d_key d end in
-    let s := touch s inp in
-    let (scanned, s) := scan_rule s inp in
-    if negb scanned then
-      let s := if kind_eqb (kind_of s inp) KScanning then s else fault s FNotScanning in
-      let ri := rinfo_of s inp in
-      set_ri s inp (mkRI (ri_kind ri) (ri_res ri) (ri_paused ri) (ri_deferred ri ++ [rq]) (ri_cancelled ri))
-    else
-      let (avail, s) := demand_rule s inp in
-      if negb avail then
-        match aget (is_tasks s) inp with
-        | None => fault s FNoTask
-        | Some ti => set_ti s inp (mkTI (ti_wait ti) (ti_reqby ti) (ti_deferred ti ++ [rq]) (ti_disc ti) (ti_slots ti) (ti_branched ti) (ti_pending ti))
-        end
-      else if negb (sq_order rq) && (res_builtAt (res_of s k) <? res_computedAt (res_of s inp)) then
-        iemit (finish_scan s k KNeedsToRun) (ENeed k InputRebuilt (Some inp))
-      else
-        match ds' with
-        | [] => finish_scan s k KDoesNotNeedToRun
-        | _ :: _ => scan_inputs s (mkSReq k (S (sq_index rq)) None false false) ds'
-        end
+    let inp := request_input rq d in
+    let rq := fill_request rq d in
+    match scan_rule (touch s inp) inp with
+    | (false, s) => defer_on_rule s inp rq
+    | (true, s) =>
+      match demand_rule s inp with
+      | (false, s) => defer_on_task s inp rq
+      | (true, s) =>
+        if negb (sq_order rq) && input_rebuilt s k inp then iemit (finish_scan s k KNeedsToRun) (ENeed k InputRebuilt (Some inp))
+        else match ds' with
+             | [] => finish_scan s k KDoesNotNeedToRun
+             | _ :: _ => scan_inputs s (mkSReq k (S (sq_index rq)) None false false) ds'
+             end
+      end
+    end
   end.
 
 Definition process_scan_request (s : istate) (rq : sreq) : istate :=
@@ -431,33 +449,31 @@ Definition step_scan (s : istate) : istate :=
   | rq :: rest => process_scan_request (upd_toscan s rest) rq
   end.
 
+Definition pause_on_rule (s : istate) (inp : key) (rq : ireq) : istate :=
+  mod_ri (check s (kind_eqb (kind_of s inp) KScanning) FNotScanning) inp (ri_add_paused rq).
+Definition ri_add_dep (d : dep) (ri : rinfo) : rinfo := ri_with_res (res_with_deps (ri_res ri) (res_deps (ri_res ri) ++ [d])) ri.
+(* the requesting task's rule records the dependency; then the request waits for the input or is ready to be delivered *)
+Definition route_request (s : istate) (t : key) (rq : ireq) (avail : bool) : istate :=
+  let s := mod_ri s t (ri_add_dep (mkDep (iq_input rq) (iq_order rq) (iq_single rq))) in
+  if avail then upd_fininreq s (rq :: is_fininreq s) else mod_ti s (iq_input rq) (ti_add_reqby rq).
+
 (* one inputRequests item *)
+Definition process_input_request (s : istate) (rq : ireq) : istate :=
+  match scan_rule s (iq_input rq) with
+  | (false, s) => pause_on_rule s (iq_input rq) rq
+  | (true, s) =>
+    match demand_rule s (iq_input rq) with
+    | (avail, s) =>
+      match iq_task rq with
+      | None => s                                  (* dummy request *)
+      | Some t => route_request s t rq avail
+      end
+    end
+  end.
 Definition step_inreq (s : istate) : istate :=
   match is_inreq s with
   | [] => s
-  | rq :: rest =>
-    let s := upd_inreq s rest in
-    let inp := iq_input rq in
-    let (scanned, s) := scan_rule s inp in
-    if negb scanned then
-      let s := if kind_eqb (kind_of s inp) KScanning then s else fault s FNotScanning in
-      let ri := rinfo_of s inp in
-      set_ri s inp (mkRI (ri_kind ri) (ri_res ri) (ri_paused ri ++ [rq]) (ri_deferred ri) (ri_cancelled ri))
-    else
-      let (avail, s) := demand_rule s inp in
-      match iq_task rq with
-      | None => s                                  (* dummy request *)
-      | Some t =>
-        (* record the dependency on the requesting task's rule *)
-        let r := res_of s t in
-        let s := set_res s t (mkRes (res_value r) (res_sig r) (res_computedAt r) (res_builtAt r)
-                                    (res_deps r ++ [mkDep inp (iq_order rq) (iq_single rq)])) in
-        if avail then upd_fininreq s (rq :: is_fininreq s)
-        else match aget (is_tasks s) inp with
-             | None => fault s FNoTask
-             | Some ti => set_ti s inp (mkTI (ti_wait ti) (ti_reqby ti ++ [rq]) (ti_deferred ti) (ti_disc ti) (ti_slots ti) (ti_branched ti) (ti_pending ti))
-             end
-      end
+  | rq :: rest => process_input_request (upd_inreq s rest) rq
   end.
 
 (* decrementTaskWaitCount *)
@@ -468,68 +484,65 @@ Definition decrement_wait (s : istate) (t : key) : istate :=
     match ti_wait ti with
     | O => fault s FWaitUnderflow
     | S n =>
-      let s := set_ti s t (mkTI n (ti_reqby ti) (ti_deferred ti) (ti_disc ti) (ti_slots ti) (ti_branched ti) (ti_pending ti)) in
+      let s := set_ti s t (ti_with_wait n ti) in
       if Nat.eqb n 0 then upd_ready s (is_ready s ++ [t]) else s
     end
   end.
 
 (* one finishedInputRequests item *)
+Definition deliver (s : istate) (rq : ireq) : istate :=
+  match iq_task rq with
+  | None => fault s FNoTask                   (* dummy requests never get here *)
+  | Some t =>
+    let s := if iq_order rq then s
+             else provide_value s t (iq_slot rq) (iq_input rq) (res_value (res_of s (iq_input rq))) in
+    decrement_wait s t
+  end.
 Definition step_fininreq (s : istate) : istate :=
   match is_fininreq s with
   | [] => s
-  | rq :: rest =>
-    let s := upd_fininreq s rest in
-    match iq_task rq with
-    | None => fault s FNoTask                   (* dummy requests never get here *)
-    | Some t =>
-      let s := if iq_order rq then s
-               else provide_value s t (iq_slot rq) (iq_input rq) (res_value (res_of s (iq_input rq))) in
-      decrement_wait s t
-    end
+  | rq :: rest => deliver (upd_fininreq s rest) rq
   end.
 
 (* one readyTaskInfos item *)
+Definition run_ready (s : istate) (t : key) : istate :=
+  let s := check s (kind_eqb (kind_of s t) KWaiting) FNotWaiting in
+  let s := inputs_available (set_kind s t KComputing) t in
+  upd_outstanding s (S (is_outstanding s)).
 Definition step_ready (s : istate) : istate :=
   match is_ready s with
   | [] => s
-  | t :: rest =>
-    let s := upd_ready s rest in
-    let s := if kind_eqb (kind_of s t) KWaiting then s else fault s FNotWaiting in
-    let s := set_kind s t KComputing in
-    let s := inputs_available s t in
-    upd_outstanding s (S (is_outstanding s))
+  | t :: rest => run_ready (upd_ready s rest) t
   end.
 
 Fixpoint push_dummies (s : istate) (ds : list dep) : istate :=
   match ds with
   | [] => s
-  | d :: ds' =>
-    let s := touch s (d_key d) in
-    push_dummies (upd_inreq s (is_inreq s ++ [mkIReq None 0%nat (d_key d) (d_order d) (d_single d)])) ds'
+  | d :: ds' => push_dummies (push_inreq (touch s (d_key d)) (mkIReq None 0%nat (d_key d) (d_order d) (d_single d))) ds'
   end.
+Definition ri_append_deps (ds : list dep) (ri : rinfo) : rinfo := ri_with_res (res_with_deps (ri_res ri) (res_deps (ri_res ri) ++ ds)) ri.
+Definition db_write (s : istate) (t : key) : istate :=
+  if is_usedb s then upd_db s (update (is_db s) t (res_of s t)) else s.
+Definition wake_task_waiters (s : istate) (ti : tinfo) : istate :=
+  upd_fininreq (upd_toscan s (rev (ti_deferred ti) ++ is_toscan s)) (rev (ti_reqby ti) ++ is_fininreq s).
+Definition retire_task (s : istate) (t : key) : istate :=
+  upd_tasks (upd_outstanding s (pred (is_outstanding s))) (adel (is_tasks s) t).
 
 (* one finishedTaskInfos item *)
+Definition finish_task (s : istate) (t : key) : istate :=
+  match aget (is_tasks s) t with
+  | None => fault s FNoTask
+  | Some ti =>
+    let s := check s (kind_eqb (kind_of s t) KComputing) FNotComputing in
+    let s := mod_ri (set_complete s t) t (ri_append_deps (ti_disc ti)) in
+    let s := db_write (push_dummies s (ti_disc ti)) t in
+    retire_task (wake_task_waiters s ti) t
+  end.
 Definition step_fintask (s : istate) : istate :=
   match is_fintasks s with
   | [] => s
-  | t :: rest =>
-    let s := upd_fintasks s rest in
-    match aget (is_tasks s) t with
-    | None => fault s FNoTask
-    | Some ti =>
-      let s := if kind_eqb (kind_of s t) KComputing then s else fault s FNotComputing in
-      let s := set_complete s t in
-      let r := res_of s t in
-      let s := set_res s t (mkRes (res_value r) (res_sig r) (res_computedAt r) (res_builtAt r) (res_deps r ++ ti_disc ti)) in
-      let s := push_dummies s (ti_disc ti) in
-      let s := if is_usedb s then upd_db s (update (is_db s) t (res_of s t)) else s in
-      let s := upd_toscan s (rev (ti_deferred ti) ++ is_toscan s) in
-      let s := upd_fininreq s (rev (ti_reqby ti) ++ is_fininreq s) in
-      let s := upd_outstanding s (pred (is_outstanding s)) in
-      upd_tasks s (adel (is_tasks s) t)
-    end
+  | t :: rest => finish_task (upd_fintasks s rest) t
   end.
-
 (* ---------- queue loops ---------- *)
 Section Drain.
   Variable step : istate -> istate.
@@ -587,9 +600,9 @@ Definition wait_graph (s : istate) : list (key * key) :=
 Definition cancel_rule (tasks : list (key * tinfo)) (e : key * rinfo) : key * rinfo :=
   let ri := snd e in
   match aget tasks (fst e) with
-  | Some _ => (fst e, mkRI KIncomplete (ri_res ri) (ri_paused ri) (ri_deferred ri) true)
+  | Some _ => (fst e, mkRI KIncomplete (ri_res ri) [] [] true)
   | None => match ri_kind ri with
-            | KScanning => (fst e, mkRI KIncomplete (ri_res ri) (ri_paused ri) (ri_deferred ri) (ri_cancelled ri))
+            | KScanning => (fst e, mkRI KIncomplete (ri_res ri) [] [] (ri_cancelled ri))    (* the scan record is never looked at again *)
             | _ => e
             end
   end.
@@ -634,7 +647,10 @@ Fixpoint run_loop (fuel : nat) (pfuel : nat) (root : key) (s : istate) (sched : 
         let c := FindCycle.findcycle_names g root (fc_linear_fuel g) in
         let s'' := match c with FindCycle.FcDone p => iemit s' (ECycleReported p) | FindCycle.FcOutOfFuel => s' end in
         (RCycle (cancel_remaining s'') g c, rev marks)
-      | StDone => (RDone s', rev marks)
+      | StDone =>
+        (* the stall test looks at the requested rule only: other rules may still be IsScanning (ImplProofs: only through a
+           discovered dependency); build() then frees their scan records and a later build would use them *)
+        (RDone (if existsb (fun e => kind_eqb (ri_kind (snd e)) KScanning) (is_rules s') then fault s' FStaleScan else s'), rev marks)
       end
     end
   end.
